@@ -177,6 +177,31 @@ CHECKS = {
             "cut (thorough 3-way for short streams) and byte-wise feeding through tnet_machine and tnet_from (scripted recv).",
             "Depth 3 is deviation-bounded, not a full product; machine payload types ^ ! ] } are unsupported by the machine.",
             "DESIGN.md §3 C20"),
+    "C11": ("exploration",
+            "bounded-exhaustive enumeration of expression ASTs x input strings on the real regex/regex_bytes machines; Brzozowski "
+            "derivative oracle cross-validated against Python re on every pair",
+            "Every expression AST of <= 4 (thorough 5) nodes over literals {a,b}, classes [ab], [^a], '.', concatenation, alternation, "
+            "grouping, *, +, ?, {m,n} (m<=n<=2), de-duplicated by printed form (4175 / 44605 expressions) x every string over {a,b,c} "
+            "of length <= 5, for cpppo.regex and cpppo.regex_bytes (terminal, greedy) and the string/string_bytes wrappers; the "
+            "multi-byte family over {e-acute, ., [^e-acute], a} x strings over {e-acute, e-circumflex (same lead byte), a}; 2-way "
+            "chunkings and symbol-at-a-time feeding. Oracle: the machine consumes the longest prefix with a non-empty residual "
+            "language, stores exactly it, is terminal iff that prefix (length >= 1) is a sentence, and fails non-terminally otherwise.",
+            "Two input universes, <= 5 nodes, <= 5 symbols, one 2-byte literal. Two known-finding kinds on the pinned tree: a "
+            "mis-reduction inside the third-party greenery library, and byte-wise '.' when a multi-byte literal is vacuous.",
+            "DESIGN.md §3 C11"),
+    "C18": ("model_checking",
+            "explicit-state, deviation-bounded exploration of the real history loader under a virtual clock: schedule prefixes replayed on "
+            "fresh loaders over a bounded-exhaustive space of histories, file layouts and parameters; sorted-list model oracle",
+            "Histories of 4-6 records (every tie/increase pattern) written by the real logger, every composition into 1..3 rotated files "
+            "(natural-order suffixes incl. .9/.10), per file plain/gz/bz2/plain+gz, at most one injected comment/corrupt line at every "
+            "position; replayed by the real loader with the clock owned by the harness: every schedule of clock advances per load() "
+            "from a menu up to a horizon within a joint deviation bound (2 quick / 3 thorough) over start point, factor, look-ahead, "
+            "limit, upcoming and schedule. Oracle: the union of load() results is every logged record exactly once, in order, ms-exact, "
+            "never before clock+look-ahead and no later than the first load after it, final register map = last logged values; all six "
+            "loader states and the expected transitions must be observed.",
+            "Joint deviation bound rather than a full cross product; clock advances only between load() calls; <= 6 records, 3 files. "
+            "One known finding (file starting at the timestamp of a flat predecessor is skipped).",
+            "DESIGN.md §3 C18"),
     "C15": ("exploration",
             "complete product personality x request route path x service on freshly configured real simulators (UCMM subclass and "
             "main() argument parsing), access-counting Attribute class; exhaustive route-path text grammar vs reference parser",
